@@ -25,6 +25,9 @@ abbrev Out := String
 
 /-- the immutable file, as the results a fresh reader gives -/
 structure FileSem where
+  /-- xls / ods build every range when the file is opened and `worksheets()` returns those stored ranges,
+      ignoring the header-row option; xlsx / xlsb read each sheet through `worksheet_range` -/
+  eager : Bool
   sheets : List String
   /-- `worksheet_range_ref(name)` under a header-row option (canonical dump; errors included) -/
   rangeRef : String → Hdr → Out
@@ -75,7 +78,8 @@ def rangeOut (F : FileSem) (h : Hdr) (name : String) : Out := F.toOwned (F.range
 
 /-- `worksheets()`: every sheet name with its range under the option in force -/
 def worksheetsOut (F : FileSem) (h : Hdr) : Out :=
-  "&".intercalate (F.sheets.map fun n => n ++ "=" ++ rangeOut F h n)
+  let h' := if F.eager then .firstNonEmpty else h
+  "&".intercalate (F.sheets.map fun n => n ++ "=" ++ rangeOut F h' n)
 
 /-- one public call: new state and observable result -/
 def step (F : FileSem) (s : State) : Op → State × Out
